@@ -88,12 +88,16 @@ func resolveSession(c *an.Ctx, id string) (*sessionFns, bool) {
 	ok := true
 	for name, f := range map[string]*ssa.Function{
 		"p2p.(*Exchange).GetRangeByHeight": s.exGet, "p2p.(*session).getRangeByHeight": s.sesGet, "p2p.(*session).doRequest": s.doReq,
-		"p2p.(*session).processResponses": s.sProc, "p2p.(*session).verify": s.sVerify, "p2p.(*session).handleOutgoingRequests": s.handleOut,
+		"p2p.(*session).processResponses": s.sProc, "p2p.(*session).handleOutgoingRequests": s.handleOut,
 		"p2p.withValidation": s.withVal, "p2p.newSession": s.newSes, "p2p.processResponses": s.proc, "header.VerifyRange": s.verifyRange,
 		"p2p.prepareRequests": s.prep, "p2p.sendMessage": s.sendMsg,
 	} {
 		ok = c.Need(f, id, name) && ok
 	}
+	if s.sVerify != nil && s.sVerify.Blocks == nil {
+		s.sVerify = nil
+	}
+	// (session.verify may be written inside session.processResponses: nonEmptyChain handles both)
 	return s, ok
 }
 
@@ -162,6 +166,34 @@ func nonEmptyChain(c *an.Ctx, id string, s *sessionFns) bool {
 			ok = ok && t.ErrShape(errResult(r)) != "nil"
 		}
 		all = c.Check(ok, id, "postcond:header.VerifyRange", "VerifyRange returns nil-error only for a non-empty input (and then the whole input, see C02)", s.verifyRange, nil, "", nil) && all
+	}
+	// (3+4, when session.verify is written inside session.processResponses): the nil-error results
+	// are VerifyRange(s.from, decoded) — or decoded itself only when no trusted header was given
+	if s.sVerify == nil {
+		t, ff := c.T(s.sProc), c.F(s.sProc)
+		pcs, vrs := callsTo(s.sProc, s.proc), callsTo(s.sProc, s.verifyRange)
+		ok := len(pcs) == 1 && len(vrs) == 1
+		if ok {
+			pc, vr := pcs[0], vrs[0]
+			dec, decErr := t.Of(pc)+"#0", t.Of(pc)+"#1"
+			ok = t.Of(pc.Call.Args[0]) == "p1" && t.Of(vr.Call.Args[0]) == "p0.from" && t.Of(vr.Call.Args[1]) == dec
+			for _, r := range ff.Returns() {
+				r0, r1 := t.Of(r.Results[0]), t.Of(r.Results[1])
+				fs := ff.AtInstr(r)
+				switch {
+				case r0 == t.Of(vr)+"#0" && r1 == t.Of(vr)+"#1":
+					ok = ok && fs.Has(an.NotB("IsZero(p0.from)")) && fs.Has(an.EQ(decErr, "nil"))
+				case r0 == dec && t.ErrShape(errResult(r)) == "nil":
+					ok = ok && fs.Has(an.B("IsZero(p0.from)")) && fs.Has(an.EQ(decErr, "nil"))
+				case t.ErrShape(errResult(r)) != "nil" && !fs.Has(an.EQ(r1, "nil")):
+					// an error return
+				default:
+					ok = false
+				}
+			}
+		}
+		all = c.Check(ok, id, "postcond:session.processResponses", "session.processResponses returns header.VerifyRange(s.from, decoded headers) — or the decoded headers unverified only when no trusted header was given — and nothing else with a nil error", s.sProc, nil, "", nil) && all
+		return all
 	}
 	// (3) session.verify returns VerifyRange(s.from, p1) or (p1, nil)
 	{
